@@ -594,10 +594,8 @@ def resolve_strategy_inline_recurse(path, base, decisions):
                 }
 
             elif k == 'id':
-                cell[k] = {
-                    "local_id": lcell[k],
-                    "remote_id": rcell[k],
-                }
+                # A cell id must be a string, keep the local one
+                cell[k] = lcell[k] if k in lcell else rcell[k]
 
             elif k == 'execution_count':
                 cell[k] = None  # Clear
